@@ -53,7 +53,7 @@ theorem app_visible_lemma (c : Cfg) (b : Built) (h : c.WF) (happ : b.app.length 
     (hcsf : c.hasCsf = true → (csfBytes c.version b.cmds).length = HabConsts.csfSize)
     (hv : AppVisible c b.app) :
     findAppOffset (exportImage c b) c.entry HabConsts.knownAppOffsets = some c.appOff := by
-  obtain ⟨h8, hvec, hfront⟩ := hv
+  obtain ⟨_, h8, hvec, hfront⟩ := hv
   have hlen := exportImage_length c b h happ hcsf
   have hmem : c.appOff ∈ HabConsts.knownAppOffsets := by rw [appOff_eq]; exact h.appOffKnown
   have himg : exportImage c b = image c b.app (if c.hasCsf then some (csfBytes c.version b.cmds) else none) := rfl
